@@ -1272,6 +1272,16 @@ def m_unwrap_or_else(I, a, e, ci):
 
     if isinstance(v, Enum):
         return g(v)
+    if isinstance(v, Ite) and isinstance(v.a, Enum) and isinstance(v.b, Enum):
+        old = I.sub_trace()
+        try:
+            ra, rb = g(v.a), g(v.b)
+        finally:
+            sub_ = I.trace
+            I.trace = old
+        if sub_.items:
+            raise Unanalysable("unwrap_or_else with an effectful fallback under a symbolic condition", FX.short(e.get("sp")))
+        return Ite(v.cond, ra, rb)
     raise Unanalysable(f"unwrap_or_else on {v!r}")
 
 
@@ -1378,3 +1388,77 @@ def m_for_each(I, a, e, ci):
             raise Unanalysable("for_each with a non-closure callee over a symbolic range", FX.short(e.get("sp")))
         I.apply_closure(f, [s.f(sp.Integer(0))])
     return UNIT
+
+
+@model("ark_ff::Field::square")
+def m_square(I, a, e, ci):
+    x = I.deref(a[0])
+    if not isinstance(x, Sc):
+        raise Unanalysable(f"square of {x!r}")
+    return Sc(x.e * x.e)
+
+
+@model("ark_ff::Field::double")
+def m_double(I, a, e, ci):
+    x = I.deref(a[0])
+    if not isinstance(x, Sc):
+        raise Unanalysable(f"double of {x!r}")
+    return Sc(2 * x.e)
+
+
+@model("ark_ff::Field::square_in_place", "ark_ff::Field::double_in_place", places=(0,))
+def m_square_in_place(I, a, e, ci):
+    x = I.deref(a[0].get())
+    if not isinstance(x, Sc):
+        raise Unanalysable(f"square_in_place of {x!r}")
+    sq = (ci.get("path") or "").endswith("square_in_place")
+    a[0].set(Sc(x.e * x.e if sq else 2 * x.e))
+    return a[0]
+
+
+@model("std::iter::Iterator::product")
+def m_product(I, a, e, ci):
+    it = I.to_iter(a[0], e)
+    if it.vec is None:
+        raise Unanalysable("product over an unbounded iterator")
+    total = sp.Integer(1)
+    for s in it.vec.nonempty_segs():
+        k = fresh("k", integer=True, nonnegative=True)
+        total *= mk_prod(s.n, as_sc(s.f(k)).e, k)
+    return Sc(total)
+
+
+@model("std::cmp::Ord::min", "core::cmp::Ord::min", "std::cmp::min")
+def m_min(I, a, e, ci):
+    x, y = a
+    if isinstance(x, IntV) and isinstance(y, IntV):
+        if le(x.e, y.e, I.bounds):
+            return x
+        if le(y.e, x.e, I.bounds):
+            return y
+        mn = sfun("MIN2")(sp.expand(x.e), sp.expand(y.e))
+        I.bounds.add_le(mn, x.e)
+        I.bounds.add_le(mn, y.e)
+        return IntV(mn)
+    raise Unanalysable(f"min of {x!r}, {y!r}")
+
+
+@model("digest::Digest::new_with_prefix")
+def m_digest_new_with_prefix(I, a, e, ci):
+    ga = ci.get("gargs") or []
+    h = HashV(ga[0] if ga else e.get("ty", "?"))
+    h.updates.append(I.deref(a[0]))
+    return h
+
+
+@model("std::iter::Iterator::count")
+def m_count(I, a, e, ci):
+    it = I.deref(a[0])
+    if isinstance(it, UserIter):
+        # consumes the crate-local iterator: its `next` runs `limit` times
+        I.user_iter_loop(it, lambda x: None, {}, e)
+        return IntV(it.limit)
+    itv = I.to_iter(it, e)
+    if itv.vec is None:
+        raise Unanalysable("count of an unbounded iterator")
+    return IntV(itv.vec.length())
